@@ -75,6 +75,11 @@ Matrix<2,2,double> sqrt (const Matrix<2,2,double>& C)
   double det = C[0][0]*C[1][1] - C[0][1]*C[1][0];
   double trace = C[0][0]+C[1][1];
 
+  // the determinant vanishes at the edge of the admissible correlation range
+  // and may round slightly below zero there
+  if (det < 0)
+    det = 0;
+
   double s = sqrt(det);
   double t = sqrt(trace + 2*s);
 
